@@ -8,7 +8,7 @@ import os
 
 import numpy as np
 
-from .. import gen_core, gen_ioapi, harness, snapshot
+from .. import gen_core, gen_ioapi, harness, readerfiles, snapshot
 from ..cli import digest
 
 PROP = 'C04'
@@ -26,6 +26,7 @@ RULE = ('(a) concatenation law: 2-5 independently generated files that differ '
         'piece re-extracted from the stacked file; core and IOAPI (TSTEP) '
         'files. non-trivial = the stacked dimension is used by at least one '
         'variable and there are >= 2 pieces; distinct = digest of the spec.')
+RULE += (" One case in sixteen splits and restacks the object one of the library's READERS returns for a valid image written by the independent codecs (CAMx memory-mapped and record readers, bpch1, bpch2, arlpackedbit, ffi1001) along a dimension drawn from the open file (TSTEP for IOAPI-class files).")
 ASSUMPTIONS = [
     'dimension dict order is not demanded (not named by the property)',
     'variables without the stacked dimension are compared with the first '
@@ -52,6 +53,12 @@ def partition(rng, n, maxk=5):
 
 def gen(rng, idx, tier, seed):
     mode = ['concat', 'inverse', 'inverse', 'ioapi'][idx % 4]
+    if idx % 16 == 13:
+        # split and restack the object a library reader returns for a valid
+        # image (dimension and pieces are drawn once it is open)
+        return {'mode': 'reader',
+                'file': {'reader': readerfiles.gen_spec(rng, idx=idx // 16)},
+                'pseed': int(rng.integers(1 << 30))}
     if mode == 'ioapi':
         fs = gen_ioapi.gen_spec(rng, maxn=5)
         return {'mode': mode, 'file': fs,
@@ -238,12 +245,39 @@ def len_of(snap, dim):
     return snap.dims[dim][0]
 
 
-def run_inverse(spec, res):
-    ioapi = spec['mode'] == 'ioapi'
-    if ioapi:
+def run_reader(spec, res):
+    from .. import harness, ops
+    rdr = spec['file']['reader']
+    with harness.casedir() as d:
+        f, status = readerfiles.open_reader(rdr, d)
+        res.facet('reader:%s:%s' % (rdr['kind'], status.split(':')[0]))
+        if f is None or snapshot.wellformed(f):
+            # (a malformed reader file is C01's finding)
+            res.note('reader-gave-no-file:' + status)
+            return
+        rng = np.random.default_rng([spec['pseed'], 79])
+        ioapi = ops.is_ioapi(f)
+        used = [k for k in ops.dims_used(f) if len(f.dimensions[k]) > 0 and
+                k not in ('VAR', 'DATE-TIME', 'nv', 'tnv')]
+        if ioapi:
+            used = [k for k in used if k == 'TSTEP']
+        if not used:
+            return
+        dim = str(rng.choice(used))
+        parts = partition(rng, len(f.dimensions[dim]))
+        res.facet('source:reader')
+        run_inverse(dict(spec, parts=parts, dim=dim), res, f=f, ioapi=ioapi)
+
+
+def run_inverse(spec, res, f=None, ioapi=None):
+    if f is not None:
+        dim = spec['dim']
+    elif spec['mode'] == 'ioapi':
+        ioapi = True
         f = gen_ioapi.build(spec['file'])
         dim = 'TSTEP'
     else:
+        ioapi = False
         f = gen_core.build(spec['file'])
         dim = spec['dim']
     before = snapshot.snap_file(f)
@@ -271,7 +305,15 @@ def run_inverse(spec, res):
     ign = snapshot.IOAPI_STAMPS if ioapi else ()
     problems += [d for d in snapshot.diff_attrs(
         before.attrs, after.attrs, 'global ', exact_type=False, ignore=ign)
-        if 'order' not in d]
+        if 'order' not in d and not (
+            # files of the CAMx readers are IOAPI-class files without the
+            # full IOAPI header: the class completes it (defaults) in every
+            # result; nothing the source stated is changed by that
+            ioapi and spec['mode'] == 'reader' and d.endswith(' added') and
+            d.split()[-2] in ('IOAPI_VERSION', 'EXEC_ID', 'NTHIK', 'HISTORY',
+                              'UPNAM', 'FILEDESC', 'GDNAM', 'WDATE', 'WTIME',
+                              'CDATE', 'CTIME', 'VGTYP', 'VGTOP', 'VGLVLS',
+                              'FTYPE', 'NVARS', 'VAR-LIST'))]
     used = False
     for name, vs in before.vars.items():
         res.hook('oracle.compare')
@@ -309,7 +351,9 @@ def run_inverse(spec, res):
 
 
 def run(spec, res):
-    if spec['mode'] == 'concat':
+    if spec['mode'] == 'reader':
+        run_reader(spec, res)
+    elif spec['mode'] == 'concat':
         run_concat(spec, res)
     else:
         run_inverse(spec, res)
